@@ -26,6 +26,7 @@ import (
 	"strconv"
 	"strings"
 	"sync"
+	"syscall"
 	"time"
 )
 
@@ -244,8 +245,17 @@ func worker(bin, scratch string, env map[string]string, timeout time.Duration, t
 			return nil, fmt.Errorf("worker %s failed: %v\n%s", tag, err, tail)
 		}
 	case <-time.After(timeout):
-		c.Process.Kill()
-		return nil, fmt.Errorf("worker %s: watchdog after %v (a thread blocked outside the simulator's control?)", tag, timeout)
+		// ask the Go runtime for a goroutine dump before killing: the dump is the diagnosis
+		c.Process.Signal(syscall.SIGQUIT)
+		select {
+		case <-done:
+		case <-time.After(20 * time.Second):
+			c.Process.Kill()
+		}
+		os.MkdirAll(filepath.Join(outDir(), "replays"), 0o755)
+		dump := filepath.Join(outDir(), "replays", "watchdog-"+tag+".txt")
+		os.WriteFile(dump, buf.Bytes(), 0o644)
+		return nil, fmt.Errorf("worker %s: watchdog after %v (a thread blocked outside the simulator's control?); goroutine dump in %s", tag, timeout, dump)
 	}
 	f, err := os.Open(out)
 	if err != nil {
